@@ -52,12 +52,6 @@ def script_of(ex):
     return [h["id"], h["kind"], h["kmap"], h["script"].split(";")]
 
 
-def validate(execs, name, V=None, max_rounds=4):
-    lines = [hs.normalise(ex) for ex in execs]
-    acc, issues, st = vlib.check_traces(hs.TRACE_TLA, hs.TRACE_CFG, lines, name, max_rounds=max_rounds)
-    return acc, issues, st
-
-
 def run(pid, tier, seed, replay=None):
     V = vlib.Verdict(pid, tier, seed)
     rng = random.Random(seed * 104729 + 18)
@@ -70,16 +64,20 @@ def run(pid, tier, seed, replay=None):
         rp = json.load(open(replay))
         scripts = [tuple(s) for s in rp["scripts"]]
     else:
-        # ---- 1. model checking of the specification itself
-        mcs = [("mc", "HSet_mc.cfg")] if quick else [("mc", "HSet_mc.cfg"), ("mc5", "HSet_mc5.cfg"), ("mc_deep", "HSet_mc_deep.cfg")]
+        # ---- 1. model checking of the specification itself (the depth-3 run also prints the script of every behaviour)
+        r, bfs = hs.tlc_scripts("HSet_mc.cfg", "mc", workers=vlib.NCPU, timeout=1500)
+        V.add_tlc("mc", r)
+        if not r.ok:
+            raise vlib.Broken("HSet.tla does not satisfy its own invariants in HSet_mc.cfg (%s): the specification is wrong\n%s" % (r.violation, r.error_trace[:3000]))
+        mcs = [] if quick else [("mc4", "HSet_mc4.cfg"), ("mc_deep", "HSet_mc_deep.cfg"), ("mc5", "HSet_mc5.cfg")]
         for name, cfg in mcs:
             p = os.path.join(SPEC, "mc", cfg)
             if not os.path.exists(p):
                 continue
-            r = vlib.tlc(mc_tla, p, cache=True, timeout=2400, heap="12g")
+            r = vlib.tlc(mc_tla, p, cache=True, timeout=1500, heap="12g")
             V.add_tlc(name, r)
             if not r.ok:
-                if r.violation == "timeout" and name != "mc":
+                if r.violation == "timeout":
                     V.extra.setdefault("notes", []).append("%s: TLC timed out (bounded result only)" % cfg)
                     continue
                 raise vlib.Broken("HSet.tla does not satisfy its own invariants in %s (%s): the specification is wrong\n%s" % (cfg, r.violation, r.error_trace[:3000]))
@@ -100,14 +98,10 @@ def run(pid, tier, seed, replay=None):
         V.extra["steering_scripts_from_as_read_model"] = steering
 
         # ---- 3. scripts
-        r, bfs = hs.tlc_scripts("HSet_gen.cfg", "gen", workers=8, timeout=1500)
-        if not r.ok:
-            raise vlib.Broken("TLC failed on HSet_gen.cfg: %s" % r.error_trace[:2000])
-        V.add_tlc("gen_bfs", r)
         bfs = hs.maximal(bfs)
         V.extra["bfs_behaviours_available"] = len(bfs)
         rng.shuffle(bfs)
-        nbfs = 160 if quick else 4000
+        nbfs = 160 if quick else 2500
         for j, h in enumerate(bfs[:nbfs]):
             scripts.append(("b%d" % j,) + hs.from_tlc(h, hs.KINDS[j % len(hs.KINDS)], rng.choice([0, 0, 1, 2, 3]), rng))
         simcfg, simn, simd = ("HSet_simq.cfg", 6, 21) if quick else ("HSet_sim.cfg", 60, 41)
@@ -117,7 +111,7 @@ def run(pid, tier, seed, replay=None):
         V.extra["simulated_behaviours"] = len(sim)
         for j, h in enumerate(sim):
             scripts.append(("s%d" % j,) + hs.from_tlc(h, hs.KINDS[(j + seed) % len(hs.KINDS)], rng.choice([0, 1, 2, 3]), rng, audit_every=0.4))
-        nrand = 140 if quick else 3000
+        nrand = 140 if quick else 2000
         for j in range(nrand):
             scripts.append(("r%d" % j,) + hs.gen_random(rng, max_ops=14 if quick else 24))
 
@@ -128,47 +122,49 @@ def run(pid, tier, seed, replay=None):
     V.extra["kinds"] = sorted({s[1] for s in scripts})
     V.extra["states_reached_on_real_containers"] = hs.shape_stats(execs)
     V.extra["operations_validated"] = sum(1 for ex in execs for e in ex if e.get("k") == "op")
-    acc, issues, st = validate(execs, pid + "_trace")
+    acc, entries, st = hs.check_traces(execs, pid + "_trace")
     V.cov["traces_validated_against_impl"] = acc
     V.cov["transitions"] += st["states"]
-    V.extra["trace_validation"] = {"accepted": acc, "issues": len(issues), "tlc_states": st["states"], "wall_s": round(st["wall"], 1), "unchecked": st["unchecked"], "rounds": st["rounds"]}
     by_id = {ex[0]["id"]: ex for ex in execs}
+    bad = [(t[4:], eid, ln) for t, eid, ln in entries if t.startswith("bad_")]
+    drifts = [(eid, ln) for t, eid, ln in entries if t.startswith("drift_")]
+    h1 = {t[3:]: (eid, ln) for t, eid, ln in entries if t.startswith("h1_")}
+    V.extra["trace_validation"] = {"executions_fully_judged": acc, "failed_clauses": len(bad), "shape_drift": len(drifts), "lines": st["lines"], "tlc_states": st["states"], "wall_s": round(st["wall"], 1), "tlc_runs": st["runs"]}
 
-    for iss in issues:
-        ex = execs[iss.exec_index]
-        sc = script_of(ex)
-        where = describe(hs.normalise(ex), iss.line)
-        if iss.kind == "rejected":
-            raise vlib.Broken("trace not explained by HSet_Trace (script generator and specification disagree): %s at %s script=%s" % (iss.detail, where, ";".join(sc[3])))
-        clause = iss.kind.split(":", 1)[1]
-        if clause == "ShapeConforms":
-            V.drift += 1
-            log("SPEC-DRIFT component=transient_hash_table (L2-lite chain shape differs from the real chain; no verdict) kind=%s %s script=%s" % (sc[1], where, ";".join(sc[3])))
-            continue
-        m = re.findall(r'bad = "(\w+)"', iss.detail)
-        what = m[-1] if m and m[-1] else clause
+    for eid, ln in drifts[:20]:
+        sc = script_of(by_id[eid])
+        V.drift += 1
+        log("SPEC-DRIFT component=transient_hash_table (L2-lite chain shape differs from the real chain; no verdict) kind=%s %s script=%s" % (sc[1], describe(hs.normalise(by_id[eid]), ln + 1), ";".join(sc[3])))
+    V.drift = max(V.drift, len(drifts))
+
+    reported = {}
+    for what, eid, ln in sorted(bad, key=lambda b: (b[0], len(by_id[b[1]]))):
         if what not in CLAUSES:
             raise vlib.Broken("unknown clause %s" % what)
+        reported[what] = reported.get(what, 0) + 1
+        if reported[what] > 3:      # the shortest three witnesses per clause are enough
+            continue
+        ex = by_id[eid]
+        sc = script_of(ex)
+        where = describe(hs.normalise(ex), ln + 1)
         # reproducibility: the same script must fail again on re-execution
         ex2, _ = hs.run_driver([tuple(sc)], pid + "_re")
-        _, iss2, _ = validate(ex2, pid + "_re", max_rounds=1)
-        if not [i for i in iss2 if i.kind.startswith("invariant:Holds")]:
+        _, ent2, _ = hs.check_traces(ex2, pid + "_re")
+        if not [t for t, _, _ in ent2 if t.startswith("bad_")]:
             raise vlib.Broken("violation %s did not reproduce on re-execution of script %s" % (what, ";".join(sc[3])))
         rp = vlib.save_replay(pid, "%s_%s.json" % (what, sc[0]), {"scripts": [sc], "clause": what, "at": where, "trace": ex[:60]})
         V.violation("%s violated by the real container: kind=%s kmap=%s %s script=%s" % (what, sc[1], sc[2], where, ";".join(sc[3])), rp)
+    V.extra["failed_clauses_by_name"] = reported
 
     # ---- known defect H1: observations that deviate exactly as the source-as-read predicts (decided by TLC in HSet_Trace)
-    h1 = {}
-    for facet, eid in st["pairs"]:
-        h1.setdefault(facet, eid)
-    V.extra["h1_facets_observed_on_real_code"] = h1
-    for facet, eid in sorted(h1.items()):
+    V.extra["h1_facets_observed_on_real_code"] = {k: v[0] for k, v in h1.items()}
+    for facet, (eid, ln) in sorted(h1.items()):
         ex = by_id.get(eid)
         if ex is None or facet not in H1_TEXT:
             raise vlib.Broken("H1 facet %s refers to unknown execution %s" % (facet, eid))
         sc = script_of(ex)
-        rp = vlib.save_replay(pid, "H1_%s_%s.json" % (facet, sc[0]), {"scripts": [sc], "clause": "H1:" + facet, "trace": ex[:40]})
-        V.violation("%s; witness kind=%s script=%s" % (H1_TEXT[facet], sc[1], ";".join(sc[3])), rp)
+        rp = vlib.save_replay(pid, "H1_%s_%s.json" % (facet, sc[0]), {"scripts": [sc], "clause": "H1:" + facet, "at": describe(hs.normalise(ex), ln + 1), "trace": ex[:40]})
+        V.violation("%s; witness kind=%s %s script=%s" % (H1_TEXT[facet], sc[1], describe(hs.normalise(ex), ln + 1), ";".join(sc[3])), rp)
 
     for ex in execs[:1] + execs[-2:]:
         ops = [e for e in ex if e.get("k") == "op"]
